@@ -80,6 +80,34 @@ def op_c11_flags(args):
     return v.result()
 
 
+def _swap_nested(code, old, new):
+    consts = tuple(new if k is old else (_swap_nested(k, old, new) if isinstance(k, CodeType) else k) for k in code.co_consts)
+    return code_replace(code, co_consts=consts)
+
+
+def _header_via_parent(L, v, c, c2, kw):
+    top = _swap_nested(base_codes()[0], c, c2)
+    v.features["via_parent"] += 1
+    try:
+        cd = L.CodeData.from_code(top)
+    except Exception as e:
+        v.features["from_code_raised"] += 1
+        return v.result()
+    try:
+        r = cd.to_code()
+    except Exception as e:
+        v.features["to_code_raised_after_from_code"] += 1
+        return v.result()
+    v.features["header_reproduced_checked"] += 1
+    for (p, a), (_q, b) in zip(refs.walk_codes(top), refs.walk_codes(r)):
+        for fld in HEADER_FIELDS:
+            if hasattr(a, fld) and (getattr(a, fld) != getattr(b, fld)):
+                v.violate("silently_lossy", fld + ":nested", "%s (nested in its module) altered by %r: from_code succeeded but to_code() has %s=%r instead of %r in %s"
+                          % (c.co_name, kw, fld, getattr(b, fld), getattr(a, fld), p))
+                return v.result()
+    return v.result()
+
+
 BASE = '''
 def f(a, b=1, *args, c, **kw):
     "doc"
@@ -101,6 +129,10 @@ l = [i for i in y]
 lam = lambda q, *r: q
 def plain(p, q):
     return p
+def staronly(*a, **k):
+    return a
+lam2 = lambda *a: a
+lam3 = lambda **k: k
 '''
 BASE38 = BASE + "def po(a, b, /, c, *, d):\n    return a\n"
 _base = None
@@ -130,8 +162,12 @@ def op_c11_header(args):
     flags |= args.get("flags_or", 0)
     if flags != c.co_flags:
         kw["co_flags"] = flags
+    if args.get("filename"):
+        kw["co_filename"] = args["filename"]
+    if args.get("name"):
+        kw["co_name"] = args["name"]
     for k, field in (("argcount_d", "co_argcount"), ("posonly_d", "co_posonlyargcount"), ("kwonly_d", "co_kwonlyargcount"),
-                     ("nlocals_d", "co_nlocals")):
+                     ("nlocals_d", "co_nlocals"), ("stacksize_d", "co_stacksize"), ("firstlineno_d", "co_firstlineno")):
         d = args.get(k, 0)
         if d and hasattr(c, field):
             kw[field] = getattr(c, field) + d
@@ -145,6 +181,9 @@ def op_c11_header(args):
     for k in kw:
         v.features["altered_" + k] += 1
     v.info["nontrivial"] = True
+    if args.get("via_parent") and c is not codes[0]:
+        # decode the altered code object as a NESTED constant of its enclosing module
+        return _header_via_parent(L, v, c, c2, kw)
     try:
         cd = L.CodeData.from_code(c2)
     except Exception as e:
